@@ -12,6 +12,7 @@
 -/
 import Pdlv.Thm.C03
 import Pdlv.Lemmas.PyAgree
+import Pdlv.Lemmas.PySer
 
 namespace Pdlv
 namespace Ref
@@ -80,6 +81,16 @@ theorem python_parser_agrees_with_reference (c : Cfg) (nm : String) (items : Ite
     Py.decodeFull c (.root nm items) bs = .ok v ↔
       Pdlv.decodeFull { e := c.e, mode := .ideal } (.root nm items) bs = .ok v :=
   parse_all_agrees_with_reference c nm items hw bs v
+
+/-- **C13, serializer side**: for every packet or struct without parent in `Py.serWfBody` (no element-size or custom
+    fields, widths up to 64) that meets the hypotheses of C03, both byte orders, and every value the reference
+    assigns an encoding to (through the reference-mode encoder): the model of the emitted `serialize()` succeeds
+    and writes exactly `Ref.encode` — it performs fewer checks than the reference encoder (no flag consistency,
+    no padding overflow, no enum validation), never different arithmetic -/
+theorem python_serializer_writes_reference (c : Cfg) (b : Body) (hs : serWfBody b = true) (hr : refWfBody b = true)
+    (v : Value) (bs : Bytes) (h : Pdlv.encBody { e := c.e, mode := .ideal } b v = .ok bs) :
+    Py.encBody c b v = .ok bs ∧ Ref.encode c.e b v = some bs :=
+  ⟨body_ideal_to_py c b v bs hs h, encode_ideal_eq_ref c.e b hr v bs h⟩
 
 /-- deviation 1 (KF-C13-py-reserved8): `packet P { _size_(x): 8, x: 8[], _reserved_: 8 }` — the emitted parser
     accepts `00` (the reserved octet is missing), the reference rejects it; the layout is outside `wfBody` -/
